@@ -1,6 +1,8 @@
 """C11 -- PCA-CD scores each component on aligned supports and alarms via Page-Hinkley."""
 from .common import A_COMMON
-TARGETS = []
+Q = "menelaus.data_drift.pca_cd:PCACD"
+TARGETS = [("fn", Q + "._intersection_divergence"), ("lemma", "min_sum_vector_form"), ("lemma", "min_sum_identity"),
+           ("lemma", "min_sum_symmetric"), ("lemma", "min_sum_range")]
 LEVEL = "exploration"
-LEVEL_TEXT = ('Bounded: real PCACD against a reimplementation of the documented procedure with the same sklearn building blocks (windows, scaling on/off, components, per-component aligned histograms / KDE, max score fed to Page-Hinkley, schedule, counters). PCA / KDE numerics are trusted. Claimed as exploration.')
+LEVEL_TEXT = ('Bounded: real PCACD against a reimplementation of the documented procedure with the same sklearn building blocks (windows, scaling on/off, components, per-component aligned histograms / KDE, max score fed to Page-Hinkley, schedule, counters). PCA / KDE numerics are trusted. Deductive (counted separately): _intersection_divergence returns 1 - min_sum(p, q, n) for a recursive spec of the shared histogram area (the numpy expression is shown equal to it by induction); lemmas: the score of a density compared with itself is 1 - its total mass (0 for a distribution), it is symmetric, and lies between 1 - mass and 1 for non-negative densities. The embedded Page-Hinkley monitor is the class proved under C04. update() itself (windows, PCA, KDE / histograms, schedule) is bounded only. Claimed as exploration.')
 ASSUMPTIONS = A_COMMON + ["the Page-Hinkley decision is knife-edge for threshold round(0.01*window) == 0: the reference monitor is fed the detector's recorded score after it was checked to equal the recomputed one"]
